@@ -45,7 +45,7 @@ UNITS['Variant_assign_variant_from'] = m(r'void\s+Variant::assign_variant_from\s
 TC = {'do_write_value': {'bool': 'do_write_value_bool', 'int32_t': 'do_write_value_int32', 'uint32_t': 'do_write_value_uint32', 'int64_t': 'do_write_value_int64', 'uint64_t': 'do_write_value_uint64',
                          'const char *': 'do_write_value_cstr', 'double': 'do_write_value_double'}}
 PROP_UNITS = {'PropertyHDF5_values_set': dict(file='backend/hdf5/PropertyHDF5.cpp', locator=r'void\s+PropertyHDF5::values\s*\((?=\s*const\s+std::vector<Variant>\s*&)', cls='PropertyHDF5', cls_file='backend/hdf5/PropertyHDF5.hpp',
-                                              classes=['Variant', 'DataSet', 'NDSize', 'H5DataType'], template_calls=TC, bounded_twin=True,
+                                              classes=['Variant', 'DataSet', 'NDSize', 'H5DataType'], template_calls=TC, bounded_twin=True, member_calls={'deleteValues': 'PropertyHDF5_deleteValues_rec'},
                                               loops={0: '__CPROVER_assigns(_i_value, nix_exc)\n'
                                                         '__CPROVER_loop_invariant(_i_value <= values->n && nix_exc == EXC_NONE && (ghost_k < _i_value ==> values->data[ghost_k].dtype == dt))\n'
                                                         '__CPROVER_decreases(values->n - _i_value)'})}
@@ -55,7 +55,34 @@ PROP_JOBS = [dict(name='PropertyHDF5_values_set', bodies=['PropertyHDF5_values_s
              dict(name='PropertyHDF5_values_set[bounded]', bodies=['PropertyHDF5_values_set'], enforce=['PropertyHDF5_values_set'], replace=[], includes=['c14_prop.h'], extra_c=PROP_EXTRA,
                   defines=['NIX_NO_LOOP_CONTRACTS', 'PROP_BOUNDED=4'], cbmc_flags=['--unwind', '6', '--unwinding-assertions'], expect_kinds=['postcondition', 'unwind'], timeout=600,
                   bounded='value lists of at most 4 entries, loop unwound completely (twin without loop contract)')]
-UNITS.update(PROP_UNITS)
+def unit_none(ctx, toks):
+    """this->unit(nix::none)  (the overload that removes the unit)  ->  unit_none()"""
+    from cxx2c import seq_at, tokenize, fire
+    out = []; i = 0
+    while i < len(toks):
+        if seq_at(toks, i, ['this', '->', 'unit', '(']) and toks[i + 4].t in ('none', 'OPT_NONE', 'nix') :
+            j = i + 4
+            while toks[j].t != ')': j += 1
+            out.extend(tokenize('%sunit_none()' % toks[i].ws)); i = j + 1; fire(ctx, 'unit-none-overload'); continue
+        out.append(toks[i]); i += 1
+    return out
+def extent_brace(ctx, toks):
+    """x.setExtent({n})  (braced initialiser converted to the NDSize parameter)  ->  x.setExtent(NDSize{n})"""
+    from cxx2c import Tok
+    out = []; i = 0
+    while i < len(toks):
+        out.append(toks[i])
+        if toks[i].t == 'setExtent' and toks[i + 1].t == '(' and toks[i + 2].t == '{':
+            out.append(toks[i + 1]); out.append(Tok('id', 'NDSize', '')); i += 2; fire(ctx, 'brace-to-parameter-type'); continue
+        i += 1
+    return out
+UUNITS = {'Property_unit_set': dict(file='src/Property.cpp', locator=r'void\s+Property::unit\s*\((?=\s*const\s+std::string\s*&\s*unit)', cls='Property', cls_file='include/nix/Property.hpp', classes=['Property', 'nstring'],
+                                    pre_rules=[unit_none], inherited_methods=['unit_none']),
+          'PropertyHDF5_deleteValues': dict(file='backend/hdf5/PropertyHDF5.cpp', locator=r'void\s+PropertyHDF5::deleteValues\s*\(', cls='PropertyHDF5', cls_file='backend/hdf5/PropertyHDF5.hpp',
+                                            classes=['PropertyHDF5', 'DataSet', 'NDSize'], inherited_methods=['removeAttr', 'hasAttr'], pre_rules=[extent_brace])}
+UEXTRA = 'int gh_deblank_out, gh_unit_sets, gh_unit_set_to, gh_unit_removes, gh_attr_removes, gh_extent_calls; ndsize_t gh_extent_n;\n'
+UJOBS = [dict(name=fn, bodies=[fn], enforce=[fn], replace=[], includes=['c14_unit.h'], extra_c=UEXTRA, expect_kinds=['postcondition'], timeout=300) for fn in UUNITS]
+UNITS.update(PROP_UNITS); UNITS.update(UUNITS)
 FL = ['--malloc-may-fail', '--malloc-fail-null']
 def job(fn, replace=(), **kw):
     d = dict(name=fn, bodies=[fn], enforce=[fn], replace=list(replace), expect_kinds=['postcondition'], timeout=300, cbmc_flags=FL, object_bits=8); d.update(kw); return d
@@ -65,8 +92,8 @@ JOBS = [job('Variant_maybe_deallocte_string')] + \
        [job('Variant_get_' + t, ['Variant_check_argument_type']) for t in ('bool', 'int32', 'uint32', 'int64', 'uint64', 'double')] + \
        [job('Variant_supports_type'), job('Variant_set_cstr_len', cbmc_flags=FL + ['--unwind', '18', '--unwinding-assertions'], bounded='string length < 16 (memcpy of a symbolic length)'),
         job('Variant_assign_variant_from', ['Variant_set_' + t for t in ('bool', 'int32', 'uint32', 'int64', 'uint64', 'double', 'none', 'cstr')])]
-JOBS += PROP_JOBS
-SPEC = dict(contracts=['c14_variant.h', 'c14_prop.h'], stubs=[], include_order=['c14_variant.h'], units=UNITS, jobs=JOBS,
+JOBS += PROP_JOBS + UJOBS
+SPEC = dict(contracts=['c14_variant.h', 'c14_prop.h', 'c14_unit.h'], stubs=[], include_order=['c14_variant.h'], units=UNITS, jobs=JOBS,
             trusted_base=['CBMC 6.11.0 (C front end, --dfcc, SAT back end; malloc/realloc/free/memcpy models of the CPROVER library, malloc may fail and return NULL)',
                           'vlib/cxx2c.py idiom map'],
             assumptions=['string blocks shorter than 16 bytes in the jobs that inspect string contents (set(const char*, len)) - labelled bounded',
